@@ -17,21 +17,79 @@ CACHE = os.path.join(VERIF, ".cache")
 DEPS = os.path.join(VERIF, ".deps")
 
 
-def setup_env(boundscheck=False):
-    """Must be called before strax / numba are imported."""
+def shared_cache_dir(boundscheck):
+    return os.path.join(CACHE, "numba-bc" if boundscheck else "numba")
+
+
+def setup_env(boundscheck=False, cache_dir=None, adhoc_copy=True):
+    """Must be called before strax / numba are imported.
+
+    The numba on-disk cache is NOT safe against concurrent writers (two processes
+    compiling different signatures of one function pick the same data-file name; a
+    later load then runs machine code compiled for the other signature -- observed:
+    sort_by_time on record_dtype(6) returning record_dtype(4) rows). Therefore the
+    shared cache is only written by a single warm-up process under an exclusive
+    lock; parallel workers use private copies (VERIF_NUMBA_PRIVATE).
+    """
     os.environ.setdefault("PYTHONHASHSEED", "0")
     if boundscheck:
         os.environ["NUMBA_BOUNDSCHECK"] = "1"
-        os.environ["NUMBA_CACHE_DIR"] = os.path.join(CACHE, "numba-bc")
     else:
         os.environ.pop("NUMBA_BOUNDSCHECK", None)
-        os.environ["NUMBA_CACHE_DIR"] = os.path.join(CACHE, "numba")
-    os.makedirs(os.environ["NUMBA_CACHE_DIR"], exist_ok=True)
+    if cache_dir is None:
+        cache_dir = os.environ.get("VERIF_NUMBA_PRIVATE")
+    if cache_dir is None:
+        # ad-hoc use (replay, interactive): private throw-away copy of the shared cache
+        import atexit
+        import shutil
+        import tempfile
+
+        os.makedirs(CACHE, exist_ok=True)
+        cache_dir = tempfile.mkdtemp(prefix="nb-adhoc-", dir=CACHE)
+        if adhoc_copy:
+            copy_shared_cache(boundscheck, cache_dir)
+        atexit.register(shutil.rmtree, cache_dir, True)
+        os.environ["VERIF_NUMBA_PRIVATE"] = cache_dir
+    os.environ["VERIF_NUMBA_PRIVATE"] = cache_dir
+    os.environ["NUMBA_CACHE_DIR"] = cache_dir
+    os.makedirs(cache_dir, exist_ok=True)
     os.environ.setdefault("TQDM_DISABLE", "1")
     if REPO not in sys.path:
         sys.path.insert(0, REPO)
     if os.path.isdir(DEPS) and DEPS not in sys.path:
         sys.path.append(DEPS)
+
+
+class cache_lock:
+    """flock on the shared numba cache: exclusive for the warm-up writer, shared for copiers."""
+
+    def __init__(self, boundscheck, exclusive):
+        self.path = shared_cache_dir(boundscheck) + ".lock"
+        self.exclusive = exclusive
+
+    def __enter__(self):
+        import fcntl
+
+        os.makedirs(CACHE, exist_ok=True)
+        self.f = open(self.path, "w")
+        fcntl.flock(self.f, fcntl.LOCK_EX if self.exclusive else fcntl.LOCK_SH)
+        return self
+
+    def __exit__(self, *a):
+        import fcntl
+
+        fcntl.flock(self.f, fcntl.LOCK_UN)
+        self.f.close()
+
+
+def copy_shared_cache(boundscheck, dest):
+    import shutil
+
+    src = shared_cache_dir(boundscheck)
+    if not os.path.isdir(src):
+        return
+    with cache_lock(boundscheck, exclusive=False):
+        shutil.copytree(src, dest, dirs_exist_ok=True)
 
 
 def import_strax():
